@@ -102,7 +102,7 @@ fn count_lists(text: &str) -> usize {
 
 /// the three conversions at every line of `key`
 pub fn check_note(l0: &Lib, ext: &str, key: &str) -> Option<String> {
-    let dir = Key::from_file_name(key).parent();
+    let dir = crate::oracle::md::dir_of(key);
     // finding D28 (front-matter dropped by every action) has its own witness; the rest is checked without front-matter
     let mut l0 = l0.clone();
     if D28_OPEN.load(std::sync::atomic::Ordering::Relaxed) {
